@@ -59,7 +59,13 @@ def _schedule_step(ctx: Ctx, c: Collector) -> None:
             if a[EQ] and not a[dedup] and a[EMPTY]:
                 return False    # new == heap[0] implies new in heap
             return True
-        for a, fired in tables.rows(items, [dedup, EMPTY, LT, EQ], None, constraint):
+        def truthy(t):
+            # the elements of the heap are times, never None
+            t = T.strip(t)
+            if t[0] == "cmp" and t[1] in ("is", "isnot") and T.NONE in (t[2], t[3]) and ("idx", heap, T.const(0)) in (t[2], t[3]):
+                return t[1] == "isnot"
+            return None
+        for a, fired in tables.rows(items, [dedup, EMPTY, LT, EQ], truthy, constraint):
             if a[dedup] and "push" in fired:
                 pr_d.append("a time that is already scheduled is pushed again (duplicate step)")
             if not a[dedup] and "push" not in fired:
